@@ -443,6 +443,8 @@ def run(chk, tier, replay):
         execs, meta = explore(chk, tier, fixtures, rng)
         execs2, meta2 = independent_readers(chk, tier, fixtures, rng)
         lap("independent readers")
+        team_shortfall(chk, tier, fixtures)
+        lap("team shortfall")
         execs += execs2
         meta.update(meta2)
         mc_out, mc_tl = mc_future.result()     # raises InfraError if a specification-level expectation failed
@@ -744,6 +746,40 @@ INVARIANTS Emit
 CHECK_DEADLOCK FALSE
 """
 PROGS = ["I", "K", "D", "OfC", "OfB1", "VfC", "VfB1", "OmC", "VmB2", "ObC", "VbB2"]
+
+
+def team_shortfall(chk, tier, fixtures):
+    """num_threads is a request: the OpenMP runtime may deliver a smaller team (thread limit, nested region, dynamic
+    adjustment). The batches must not depend on the delivered team size: runs with num_threads = 4 and 8 under
+    OMP_THREAD_LIMIT = 1, 2, 3 are compared with the num_threads = 1 run of the same configuration."""
+    binary = common.build_harness("h_par")
+    fxs = [f for f in fixtures if len(f.cols) >= 2][:(3 if tier == "quick" else 12)] or fixtures[:1]
+    n, bad = 0, 0
+    for fx in fxs:
+        proj = list(range(len(fx.cols)))
+        for mode in ("f", "m"):
+            for bs in batch_sizes(fx, tier)[:2]:
+                ref, rf = common.run_harness(binary, [cfg_line("r", "run", fx, mode, bs, 0, 1, None)], env=H_ENV, per_case_timeout=90.0)
+                if rf or "r" not in ref:
+                    continue
+                want = parse_run(ref["r"], fx, proj)[:2]
+                for limit in (1, 2, 3):
+                    for threads in (4, 8):
+                        env = dict(H_ENV)
+                        env["OMP_THREAD_LIMIT"] = str(limit)
+                        res, faults = common.run_harness(binary, [cfg_line("t", "run", fx, mode, bs, 0, threads, None)], env=env, per_case_timeout=90.0)
+                        n += 1
+                        chk.count(("team", fx.fid, mode, bs, limit, threads), True)
+                        got = parse_run(res["t"], fx, proj)[:2] if "t" in res else None
+                        if faults or got != want:
+                            bad += 1
+                            chk.violation("par:team-smaller-than-requested:%s" % ("fault" if faults else "batches-differ"),
+                                          "fixture %s mode %s batch_size %d: num_threads=%d under OMP_THREAD_LIMIT=%d %s" % (
+                                              fx.desc(), mode, bs, threads, limit,
+                                              "faults: " + faults[0].signature() if faults else "returns other batches than num_threads=1"),
+                                          {"fixture": fx.desc(), "mode": mode, "bs": bs, "threads": threads, "omp_thread_limit": limit,
+                                           "got": str(got)[:600], "want": str(want)[:600]})
+    chk.part("team_shortfall", runs=n, differing=bad)
 
 
 def independent_readers(chk, tier, fixtures, rng):
